@@ -30,7 +30,7 @@ func init() { core.Register(check{}) }
 func (check) ID() string    { return "C16" }
 func (check) Level() string { return "exploration" }
 func (check) Rule() string {
-	return "truth table, exhaustive: programs = structs of 3 fields, each field in every combination of {default, required, optional} x {no default, literal default} (6^3 = 216) with the third field's type rotating over {bool, double, struct, i64, list<i32>} and the id layout over {1,2,3},{63,64,65},{255,256,257},{1,64,1000}; the whole 216-program table again (declared order, no unknown member) on each layout whose largest id is a bitmap-length edge: {1,2,63},{1,2,64},{1,64,128},{2,3,256},{64,128,320},{1,2,32767}; plus depth-2 programs (outer requiredness x inner 6^2); parse options 2^2 {SetOptionalBitmap, UseDefaultValue}; j2t: all 2^4 of {WriteRequireField, WriteDefaultField, WriteOptionalField, DisallowUnknownField} x every input in {absent, null, present}^3 x {no unknown member, unknown member}; t2j: same 2^4 x {absent, present}^3 x {no unknown, unknown} x 2 wire orders; cutting (generic.Value.MarshalTo between two independent parses of the program): all 2^3 of {WriteDefault, NotCheckRequireNess, DisallowUnknow} x {absent, present}^3 x unknown; environment deviations: DoInto capacities, dirty pooled bitmaps (all-ones, capacities 0..17) and dirty native bitmap cache. A case is one (side, program, parse options, options, input)."
+	return "truth table, exhaustive: programs = structs of 3 fields, each field in every combination of {default, required, optional} x {no default, literal default} (6^3 = 216) with the third field's type rotating over {bool, double, struct, i64, list<i32>, byte, i16} and the id layout over {1,2,3},{63,64,65},{255,256,257},{1,64,1000}; the whole 216-program table again (declared order, no unknown member) on each layout whose largest id is a bitmap-length edge: {1,2,63},{1,2,64},{1,64,128},{2,3,256},{64,128,320},{1,2,32767}; plus depth-2 programs (outer requiredness x inner 6^2); parse options 2^2 {SetOptionalBitmap, UseDefaultValue}; j2t: all 2^4 of {WriteRequireField, WriteDefaultField, WriteOptionalField, DisallowUnknownField} x every input in {absent, null, present}^3 x {no unknown member, unknown member}; t2j: same 2^4 x {absent, present}^3 x {no unknown, unknown} x 2 wire orders; cutting (generic.Value.MarshalTo between two independent parses of the program): all 2^3 of {WriteDefault, NotCheckRequireNess, DisallowUnknow} x {absent, present}^3 x unknown; environment deviations: DoInto capacities, dirty pooled bitmaps (all-ones, capacities 0..17) and dirty native bitmap cache. A case is one (side, program, parse options, options, input)."
 }
 
 func (check) Assumptions() []string {
@@ -80,7 +80,11 @@ var edgeIDSets = [][3]int16{{1, 2, 63}, {1, 2, 64}, {1, 64, 128}, {2, 3, 256}, {
 var innerPlain = tbin.StructS(tbin.SField{ID: 1, Name: "ix", S: tbin.Sc(tbin.I32), Req: 2}, tbin.SField{ID: 2, Name: "iy", S: tbin.Sc(tbin.STRING), Req: 1})
 
 func thirdType(k int) (s *tbin.Shape, def *tbin.Val, lit string, sample *tbin.Val) {
-	switch k % 5 {
+	switch k % 7 {
+	case 5:
+		return tbin.Sc(tbin.BYTE), tbin.Byte(-5), "-5", tbin.Byte(100)
+	case 6:
+		return tbin.Sc(tbin.I16), tbin.I16v(-300), "-300", tbin.I16v(7)
 	case 0:
 		return tbin.Sc(tbin.BOOL), tbin.Bool(true), "true", tbin.Bool(false)
 	case 1:
